@@ -285,10 +285,9 @@ Definition body_only (op : kop) : bool :=
   end.
 
 Definition xattrs_agree_outside (names : list string) (a b : list (string * string)) : bool :=
-  forallb (fun kv => existsb (String.eqb (fst kv)) names
-                     || ostr_eqb (alookup String.eqb (fst kv) b) (Some (snd kv))) a
-  && forallb (fun kv => existsb (String.eqb (fst kv)) names
-                        || ostr_eqb (alookup String.eqb (fst kv) a) (Some (snd kv))) b.
+  forallb (fun k => existsb (String.eqb k) names
+                    || ostr_eqb (alookup String.eqb k a) (alookup String.eqb k b))
+          (map fst a ++ map fst b).
 
 Definition keeps_expiry (op : kop) : bool :=
   match op with
